@@ -94,6 +94,9 @@ for i in range(64):
     M_INDEX.harnesses.append(H("u3_insert_replace_i%d" % i, "U3", tiers=tr, shape="plan_insert_chunk replacing slot %d" % i))
     M_INDEX.harnesses.append(H("u3_remove_i%d" % i, "U3", tiers=tr, shape="plan_remove_chunk at slot %d" % i))
 M_INDEX.harnesses.append(H("canary_u3", "U3", kind="canary"))
+for n in ["u2b_get_p0", "u2b_get_p37", "u2b_get_p64"]:
+    M_INDEX.harnesses.append(H(n, "U2b", tiers=("quick", "thorough") if n == "u2b_get_p37" else ("thorough",),
+                               shape="IndexTable::get through a log view implementing the LogQuery contract for index pages"))
 for k in U9_POP:
     M_INDEX.harnesses.append(H("u9_index_pop%d" % k, "U9", kind="proof" if k in (0, 64) else "bounded", tiers=("quick", "thorough") if k in (0, 1, 2, 3, 64) else ("thorough",),
                                shape="IndexTable::validate_plan / skip_plan, mask with %d set bit(s) (positions symbolic)" % k,
@@ -359,7 +362,7 @@ PROPS = {
 TB = ["rustc, Kani 0.68, CBMC 6.11, kissat/CaDiCaL, Verus 0.2026.09.13, Z3 (the verifiers themselves)"]
 
 PROPS["C09"] = {
-    "kani_units": ["U1", "U3", "U4", "U15", "U22"],
+    "kani_units": ["U1", "U2b", "U3", "U4", "U15", "U22"],
     "verus_units": ["index_search", "lookup_chain"],
     "level": "other",
     "technique": "Kani/CBMC contracts on the real index codec, page update and key recovery (complete over all pages/keys/index sizes) + Verus proof of the real collision-chain lookups against callee contracts",
@@ -517,6 +520,10 @@ UNIT_META = {
         "functions": ["index::IndexTable::find_entry_base", "index::IndexTable::find_entry_sse2", "index::IndexTable::find_entry"],
         "assumes": ["PSRLQ (_mm_srl_epi64) stubbed by its Intel SDM semantics (Kani has no model of the LLVM psrlq intrinsic)",
                     "Kani's models of simd_shuffle / simd_eq / simd_bitmask / unaligned load are faithful to SSE2"],
+    },
+    "U2b": {
+        "functions": ["index::IndexTable::get"],
+        "assumes": ["the log view is a harness type implementing LogQuery::with_index by its contract (Kani cannot stub generic trait methods of LogWriter)", "the mmap'd file path is not exercised (no file in the harness): 'else the file's page' remains assumed"],
     },
     "U3": {
         "functions": ["index::IndexTable::plan_insert_chunk", "index::IndexTable::plan_remove_chunk"],
